@@ -2352,7 +2352,7 @@ class Parameters:
                 obj.param._update_deps(attribute)
 
         p = '.'.join(dynamic_dep.spec.split(':')[0].split('.')[depth+1:])
-        if p == 'param':
+        if p == 'param' and subobjs[-1] is not None:
             subparams = [sp for sp in list(subobjs[-1].param)]
         else:
             subparams = [p]
